@@ -190,6 +190,71 @@ def mutate_text(rng, text, xml):
     return '\n'.join(lines)
 
 
+def dynamic_scenarios(run, rng, n):
+    """declarations of dynamic templates (with and without parameters, defined later or only declared) between ordinary parameterised templates and
+    instantiations: the traversal covers them as INSTANCE symbols of the global frame; the number of parameters of each is compared with its declaration"""
+    cases = []
+    for _ in range(n):
+        items, decls, procs, insts = [], [], [], []
+        for k in range(rng.randrange(2, 7)):
+            r = rng.random()
+            if r < 0.45:
+                np = rng.choice([0, 0, 1, 2])
+                items.append(('dyn', 'D%d' % k, np, rng.random() < 0.5))
+            elif r < 0.8:
+                items.append(('proc', 'B%d' % k, rng.choice([0, 1, 2, 3])))
+            else:
+                items.append(('inst', 'I%d' % k))
+        text, later, want = '', '', {}
+        plist = lambda np, pfx: ', '.join('%sint %s%d' % ('const ' if rng.random() < 0.5 else '', pfx, q) for q in range(np))
+        templs = []
+        for it in items:
+            if it[0] == 'dyn':
+                pl = plist(it[2], 'a')
+                text += 'dynamic %s(%s);\n' % (it[1], pl)
+                want[it[1]] = it[2]
+                if it[3]:
+                    later += 'process %s(%s) { state s; init s; }\n' % (it[1], pl)
+            elif it[0] == 'proc':
+                text += 'process %s(%s) { state s; init s; }\n' % (it[1], ', '.join('const int n%d' % q for q in range(it[2])))
+                templs.append((it[1], it[2]))
+                want[it[1]] = it[2]
+            elif templs:
+                tn, np = rng.choice(templs)
+                text += '%s = %s(%s);\n' % (it[1], tn, ', '.join(str(q + 1) for q in range(np)))
+                insts.append(it[1])
+        text += later
+        sysl = insts or [tn for tn, np in templs if np == 0]
+        if not sysl:
+            text += 'process Z() { state s; init s; }\n'
+            sysl = ['Z']
+        cases.append((text + 'system %s;\n' % ', '.join(sysl), want))
+    j = vlib.Job()
+    for k, (text, want) in enumerate(cases):
+        j.case('y%d' % k, fork=True).model('xta', text).dump('errors').dump('instances').dump('inv').end()
+    rr = vlib.run_jobs(j)
+    for k, (text, want) in enumerate(cases):
+        c = rr['y%d' % k]
+        if c['status'] != 'ok' or len(c['cmds']) < 4:
+            run.fail('parser crashed on declarations of dynamic templates (%s)' % c['status'], dict(text=text, status=c['status']), shape='crash:dynamic-declarations')
+            continue
+        errs = [l for l in c['cmds'][1][2] if l.startswith('error')]
+        if errs:
+            run.fail('a model that declares dynamic templates is rejected: %s' % errs[0][:160], dict(text=text, errors=errs[:3]), shape='dynamic-declarations:rejected')
+            continue
+        fails = [l for l in c['cmds'][3][2] if l.startswith('INVFAIL')]
+        if fails:
+            run.fail('structural invariant broken after declarations of dynamic templates: ' + fails[0], dict(text=text, fails=fails[:3]), shape='inv:dynamic:' + re.sub(r'\b[DBI]\d+\b', 'N', re.sub(r'\d+', 'N', fails[0]))[:50])
+            continue
+        for l in c['cmds'][2][2]:
+            m = re.match(r'(?:arity=\d+ )?instance \d+ name=(\S+) templ=\S+ params=\[(.*?)\] unbound=(\d+)', l)
+            if m and m.group(1) in want:
+                np = len([x for x in m.group(2).split(';') if x.strip()])
+                if np != want[m.group(1)]:
+                    run.fail('%s is declared with %d parameters, the document gives it %d (%s)' % (m.group(1), want[m.group(1)], np, m.group(2)), dict(text=text, line=l), shape='dynamic-declarations:parameter-count')
+    return len(cases)
+
+
 def check(run):
     thorough = run.tier == 'thorough'
     rng = run.rng
@@ -264,6 +329,7 @@ def check(run):
         if invf:
             run.fail('structural invariant broken after a faulty parse: ' + invf[0], dict(input=text, xta=xta, fails=invf[:4]),
                      shape='inv:' + re.sub(r'[0-9]+', 'N', re.sub(r'(instance|process|template) \S+', r'\1', invf[0]))[:60])
+    stats['dynamic_template_scenarios'] = dynamic_scenarios(run, rng, 400 if thorough else 80)
     run.cov.update(evaluations=2 * len(scen) + nb, distinct_nontrivial=len(set(scenario_ops(S) for S in scen)) + len(set(t for t, _ in srcs.values())),
                    traces_validated_against_impl=2 * len(scen),
                    rule='(A) seeded random declaration scenarios: 1-3 templates with 0-3 parameters, chains of up to 6 full / partial instantiations (arguments: constants or the new parameters), '
